@@ -465,6 +465,50 @@ fn both(a: bool, b: bool) -> bool { return a && b; }
   buf.data[2] = v.y;
 }
 """),
+("dead_pointer_type_chain", HDR + """
+fn unused_fn(p: ptr<function, vec4<i32>>) -> i32 { return (*p).x; }
+@compute @workgroup_size(1) fn main() { buf.data[0] = 1u; }
+"""),
+("call_only_in_continuing", HDR + """
+@group(0) @binding(1) var<storage, read_write> ticks: Buf;
+fn other(x: u32) -> u32 { return x * 3u; }
+fn advance(i: u32) -> u32 { ticks.data[0] = ticks.data[0] + i; return i + 1u; }
+fn step2(i: u32) -> u32 { ticks.data[1] = ticks.data[1] + 1u; return i + 2u; }
+@compute @workgroup_size(1) fn main() {
+  var s: u32 = 0u;
+  for (var i: u32 = 0u; i < 4u; i = advance(i)) { s = s + buf.data[i]; }
+  var k: u32 = 0u;
+  loop {
+    if (k >= 6u) { break; }
+    s = s + other(k);
+    continuing { k = step2(k); }
+  }
+  buf.data[7] = s;
+}
+"""),
+("switch_multi_selector_call_in_case", HDR + """
+fn twice(x: u32) -> u32 { return x * 2u; }
+fn bump(x: u32) -> u32 { buf.data[6] = buf.data[6] + 1u; return x + 1u; }
+@compute @workgroup_size(1) fn main() {
+  let x = buf.data[7];
+  switch (x & 1u) {
+    case 0u, 1u: { buf.data[0] = buf.data[0] + twice(x) + 1u; }
+    default: { }
+  }
+  switch (x & 1u) {
+    case 1u, 0u: { buf.data[1] = bump(x); }
+    default: { }
+  }
+  switch (x & 3u) {
+    case 2u: { buf.data[2] = twice(buf.data[2] + 1u); }
+    case 3u, default: { buf.data[3] = buf.data[3] + 10u; }
+  }
+  switch (x & 3u) {
+    case 0u, 1u, 2u, 3u: { buf.data[4] = 7u; }
+    default: { buf.data[5] = bump(buf.data[5]); }
+  }
+}
+"""),
 ("override_free_constants_chain", HDR + """
 const A: u32 = 2u;
 const B: u32 = A * 3u;
